@@ -19,6 +19,7 @@ import control as ct
 from core.runner import Family, Verdict, AGREE, VIOLATES, DIFFERS
 from core import exact
 from core.exact import fr, tok
+from families import c05_expr                       # whole expressions (cell kind `expr`)
 
 CLASSES = ("ss", "tf", "frd", "nl", "ic")
 OMEGA = [1.0, 2.0, 3.0]
@@ -325,7 +326,7 @@ class C05(Family):
     prop = "C05"
     # source-text tie (DESIGN 2.5): Generated/CommonTimebase.lean is rewritten from /repo's
     # control/iosys.py on every run and proved equal to the model `common`
-    extra_modules = ["CtrlVerif.Props.C05Gen"]
+    extra_modules = ["CtrlVerif.Props.C05Gen", "CtrlVerif.Props.C05Tree"]
 
     def pre_build(self):
         import os
@@ -353,7 +354,11 @@ class C05(Family):
             "series/parallel/append/combine_tf/interconnect and random expression trees; direct "
             "common_timebase calls.  quick = the full explicit table under default_dt=0, all unary cells, "
             "and a seeded fifth of the config/static/MIMO variants; thorough = everything plus a second set "
-            "of timebases (integer sampling times).  A cell is non-trivial when at "
+            "of timebases (integer sampling times).  Whole expressions (families/c05_expr.py, model "
+            "C05Expr.eval): every ordered triple of the five timebases for series / parallel / append / "
+            "interconnect / combine_tf over several class patterns (+ constants, dt= keyword, summing "
+            "junctions), random trees over all node kinds (powers incl. 0 and negative, unary operations, "
+            "sample(Ts), n-ary functions), and the np.isclose tolerance-edge trees.  A cell is non-trivial when at "
             "least one operand has a specified timebase (not None)")
 
     # ---- generation -------------------------------------------------------
@@ -594,7 +599,7 @@ class C05(Family):
             {"k": "bin", "op": "mul", "via": "func", "cfg": "Q0", "a": "ss:0:N", "b": "ss:0:" + t01},
             {"k": "bin", "op": "add", "via": "func", "cfg": "Q0", "a": "tf:0:T", "b": "ss:0:" + t01},
             {"k": "bin", "op": "div", "via": "func", "cfg": "Q0", "a": "ss:0:Q0", "b": "ss:0:T"},
-        ]
+        ] + c05_expr.corpus()
 
     def generate(self, rng, tier):
         cells = []
@@ -622,6 +627,7 @@ class C05(Family):
             cells += self.lic_cells(rng, 1.0)
             cells += self.nary_cells(rng, 3000)
             cells += self.tree_cells(rng, 3000)
+        cells += c05_expr.cells(self, rng, tier)
         return cells
 
     # ---- driver line --------------------------------------------------------
@@ -645,9 +651,13 @@ class C05(Family):
             return "dt nary %s %s %s %s" % (c["fn"], c["kw"], c["cfg"], " ".join(c["xs"]))
         if k == "tree":
             return "dt tree %s %s" % (c["cfg"], " ".join(c["prog"]))
+        if k == "expr":
+            return c05_expr.line(c)
         raise ValueError(k)
 
     def parse_model(self, c, out):
+        if c["k"] == "expr":
+            return c05_expr.parse_model(c, out)
         t = out.split()
         if t[0] == "err":
             return {"err": t[1]}
@@ -697,6 +707,8 @@ class C05(Family):
 
     def impl_cfg(self, c):
         k = c["k"]
+        if k == "expr":
+            return c05_expr.impl(c)
         names = {"mk": ["a"], "bin": ["a", "b"], "un": ["a"]}.get(k)
         try:
             if k == "mk" and c.get("via"):
@@ -774,6 +786,8 @@ class C05(Family):
             f["cls"] = c["a"].split(":")[0] + ("/" + c["b"].split(":")[0] if c["k"] == "bin" else "")
         if c["k"] == "nary":
             f["op"] = c["fn"]
+        if c["k"] == "expr":
+            f["op"] = c05_expr.opset(c)
         f.update(more)
         return f
 
@@ -829,6 +843,10 @@ class C05(Family):
                 return Verdict(VIOLATES, "operand %s timebase: model %s, implementation %s"
                                % (key, model[key], impl.get(key)),
                                self.feat(c, "operand-dt"))
+        if k == "expr" and c.get("near"):
+            return c05_expr.compare_near(self, c, impl, model)
+        if k == "expr" and model.get("L") != impl.get("L"):
+            return c05_expr.leaves_verdict(self, c, impl, model)
         mr, ir = model["R"], impl["R"]
         # what the property itself demands, from the implementation's own operand timebases
         if k == "bin":
@@ -837,6 +855,8 @@ class C05(Family):
             want = impl["A"]
             if c["op"] == "sample":
                 want = "D" + tok(fr(float(Fraction(c["arg"]))))
+        elif k == "expr":
+            want = impl["W"]
         else:
             want = pyjoin_all(impl["L"])
             if k == "nary" and c["fn"] == "interconnect" and c["kw"] != "-":
@@ -896,6 +916,8 @@ class C05(Family):
             return True
         if k == "common":
             return not (c["x"] == "N" and c["y"] == "N")
+        if k == "expr":
+            return c05_expr.nontrivial(c)
         toks = []
         if k == "bin":
             toks = [c["a"], c["b"]]
